@@ -17,7 +17,7 @@ TOO_LARGE = E.ResultReason.RESPONSE_TOO_LARGE.value
 
 def plan(tier):
     return {
-        'level': 'exploration', 'shards': 16, 'budget_s': 80 if tier == 'quick' else 900,
+        'level': 'exploration', 'shards': 16, 'budget_s': 120 if tier == 'quick' else 900,
         'rule': 'valid requests for every operation and version, grammar-aware mutations of their TTLV '
                 'trees (truncation at and inside items, length fields +-1/x2/0/max, tag and type swaps, '
                 'non-zero padding, duplicated/reordered/deeply nested children, batch count mismatches, '
@@ -37,7 +37,7 @@ def plan(tier):
 
 
 def cases(tier, seed):
-    n = 48 if tier == 'quick' else 640
+    n = 96 if tier == 'quick' else 800
     nf = 4 if tier == 'quick' else 32
     return [{'fuzz': i} for i in range(nf)] + [{'stream': i} for i in range(n)]
 
